@@ -171,7 +171,7 @@ def seeded_patches(pid: Optional[str] = None) -> List[tuple]:
         if os.path.isfile(pf) and os.path.isfile(mf):
             try:
                 meta = json.load(open(mf))
-                prop = meta.get("property")
+                prop = meta.get("reassigned_to") or meta.get("property")
             except Exception:
                 continue
             if meta.get("obsolete_since"):
